@@ -4,3 +4,4 @@ Definition k_flow_pack_asn1_enumerated : pfun :=
      pf_body := [
     SReturn (PCall "_pack_asn1_integer/tag" [(PName "value"); (POr (PName "tag") (PCall "ASN1Tag.universal_tag" [(PName "TypeTagNumber.ENUMERATED")]))])
   ] |}.
+Definition k_flow_pack_asn1_enumerated_defaults : list (string * pexp) := [("tag", PNone)].
